@@ -899,6 +899,9 @@ func judgeE2E(c e2eCase) (inf e2eInfo, err error) {
 	}
 	r := tg.Exec(bin, idlDir, env, watchdog, args...)
 	cmdline := "thriftgo " + strings.Join(args, " ")
+	if os.Getenv("VERIF_SURVEY") == "2" { // development aid
+		fmt.Fprintf(os.Stderr, "SURVEY dur=%v exit=%d fault=%s\n", r.Dur, r.Exit, fault)
+	}
 
 	// what the plugins recorded
 	dumps := make([]*dump, len(c.Plugins))
